@@ -217,8 +217,18 @@ OCT [0-7]
 	("too many closing parentheses in embedded expression");
 }
 
-<STRING_EMBEDDED>"\\\"" {
-  yylval->f->str += "\\\"";
+<STRING_EMBEDDED>"\\"(.|[\n]) {
+  // Inside a nested string literal a backslash escapes the character
+  // that follows it, be it a quote or another backslash (which then
+  // does not escape what comes after it).
+  if (yylval->f->in_string)
+    yylval->f->str.append (yyget_text (yyscanner), yyget_leng (yyscanner));
+  else
+    {
+      // Elsewhere a backslash is a character like any other.
+      yylval->f->str += '\\';
+      yyless (1);
+    }
 }
 
 <STRING_EMBEDDED>"\"" {
